@@ -188,66 +188,80 @@ func checkC15(w *World, r *Report) {
 	exportFrom := map[string]string{}
 	exportVal := map[string]bool{}
 	exportCond := map[string]string{}
-	for fn := range exportTree {
-		for _, b := range fn.Blocks {
-			for _, in := range b.Instrs {
-				st, ok := in.(*ssa.Store)
+	// walkCallbackOf: fn is handed as a callback to a read (Walk/Iterate) of a keeper collection; returns the
+	// collection, the call, and the frame-free range argument check
+	walkCallbackOf := func(fn *ssa.Function) (coll string, call ssa.CallInstruction) {
+		if fn.Parent() == nil {
+			return "", nil
+		}
+		for _, pb := range fn.Parent().Blocks {
+			for _, pin := range pb.Instrs {
+				pc, ok := pin.(ssa.CallInstruction)
 				if !ok {
 					continue
 				}
-				fa, ok := st.Addr.(*ssa.FieldAddr)
-				if !ok || namedOf(fa.X.Type()) != gs {
+				e := w.EffectOf(pin)
+				if e == nil || e.Kind != EffStoreRead {
 					continue
 				}
-				fname := gst.Field(fa.Field).Name()
-				call, ok := st.Val.(*ssa.Call)
-				if !ok {
-					continue
-				}
-				if bi, ok := call.Call.Value.(*ssa.Builtin); !ok || bi.Name() != "append" {
-					continue
-				}
-				// the enclosing closure is a callback of a Walk on some collection
-				if fn.Parent() == nil {
-					continue
-				}
-				for _, pb := range fn.Parent().Blocks {
-					for _, pin := range pb.Instrs {
-						pc, ok := pin.(ssa.CallInstruction)
-						if !ok {
-							continue
-						}
-						e := w.EffectOf(pin)
-						if e == nil || e.Kind != EffStoreRead {
-							continue
-						}
-						for _, a := range pc.Common().Args {
-							if mc, ok := a.(*ssa.MakeClosure); ok && mc.Fn == fn {
-								exportFrom[fname] = e.Coll
-								// every stored record is exported: the append is on every returning path of the callback and the walk is not filtered
-								for _, rb := range fn.Blocks {
-									if _, isRet := rb.Instrs[len(rb.Instrs)-1].(*ssa.Return); isRet && !(st.Block() == rb || st.Block().Dominates(rb)) {
-										exportCond[fname] = "the callback can return at " + w.instrPos(rb.Instrs[len(rb.Instrs)-1]) + " without appending the record"
-									}
-								}
-								if len(pc.Common().Args) >= 3 {
-									if rt := tm.OperandAt(tm.Root(fn.Parent()), pin, pc.Common().Args[2]); !(rt.Op == "const" && rt.Name == "nil") {
-										exportCond[fname] = "the export walk is restricted to the range " + rt.String()
-									}
-								}
-								// the appended value derives from the callback's value parameter
-								vt := tm.Of(tm.Root(fn), call.Call.Args[1])
-								if len(fn.Params) >= 2 {
-									pn := fn.Params[len(fn.Params)-1].Name()
-									exportVal[fname] = vt.Any(func(t *Term) bool { return t.Op == "param" && t.Name == pn })
-								}
-							}
-						}
+				for _, a := range pc.Common().Args {
+					if mc, ok := a.(*ssa.MakeClosure); ok && mc.Fn == fn {
+						return e.Coll, pc
 					}
 				}
 			}
 		}
+		return "", nil
 	}
+	// every store into a list field of the exported state, in the calling context of export: the stored value is (or
+	// contains, through a local slice or a helper's result) append(…, x) with x derived from the value parameter of a
+	// walk callback over one collection
+	tm.walkContexts([]*ssa.Function{exportM}, func(fr *Frame, in ssa.Instruction) {
+		st, ok := in.(*ssa.Store)
+		if !ok {
+			return
+		}
+		fa, ok := st.Addr.(*ssa.FieldAddr)
+		if !ok || namedOf(fa.X.Type()) != gs {
+			return
+		}
+		fname := gst.Field(fa.Field).Name()
+		vt := tm.OperandAt(fr, in, st.Val)
+		vt.Walk(func(t *Term) bool {
+			if !(t.Op == "builtin" && t.Name == "append" && len(t.Args) == 2) {
+				return true
+			}
+			app, _ := t.V.(*ssa.Call)
+			t.Args[1].Walk(func(pt *Term) bool {
+				par, ok := pt.V.(*ssa.Parameter)
+				if pt.Op != "param" || !ok || par.Parent() == nil {
+					return true
+				}
+				cb := par.Parent()
+				coll, pc := walkCallbackOf(cb)
+				if coll == "" || len(cb.Params) == 0 || cb.Params[len(cb.Params)-1] != par {
+					return true
+				}
+				exportFrom[fname] = coll
+				exportVal[fname] = true
+				// every stored record is exported: the append is on every returning path of the callback and the walk is not filtered
+				if app != nil && app.Parent() == cb {
+					for _, rb := range cb.Blocks {
+						if _, isRet := rb.Instrs[len(rb.Instrs)-1].(*ssa.Return); isRet && !(app.Block() == rb || app.Block().Dominates(rb)) {
+							exportCond[fname] = "the callback can return at " + w.instrPos(rb.Instrs[len(rb.Instrs)-1]) + " without appending the record"
+						}
+					}
+				}
+				if len(pc.Common().Args) >= 3 {
+					if rt := tm.OperandAt(tm.Root(cb.Parent()), pc, pc.Common().Args[2]); !(rt.Op == "const" && rt.Name == "nil") {
+						exportCond[fname] = "the export walk is restricted to the range " + rt.String()
+					}
+				}
+				return true
+			})
+			return true
+		})
+	})
 	// import: list -> collection (value is an element of the list, possibly unpacked)
 	importInto := map[string]string{}
 	type impSite struct {
@@ -468,62 +482,120 @@ func checkGenValidEnd(w *World, r *Report, tm *Terms) {
 	}
 }
 
-// checkGenParams: in genesis export/import the only stores to a field of Params are `F = empty` under `len(F) == 0`
-// of the very same field (nil-slice normalisation).
+// checkGenParams: genesis export/import never change a Params field except to normalise an empty slice of that very
+// field. Decided per slice-typed field F of Params and per genesis function by exploring the function (and whatever
+// helpers it calls) with "len(F) ≠ 0" fixed: on every path, whatever is stored into F is F's own value, and whatever is
+// stored into another field G is G's own value or an empty slice. How the normalisation is spelled — an if around a
+// store, a helper returning its argument or an empty value — does not matter.
+type genParamsRule struct {
+	BaseRule
+	w     *World
+	field string
+	bad   map[string]bool
+	seen  int
+}
+
+func paramsFieldOf(t *Term) string {
+	x := t
+	for x.Op == "deref" || x.Op == "new" || x.Op == "cell" {
+		x = x.Args[0]
+	}
+	if x.Op == "field" {
+		return x.Name
+	}
+	return ""
+}
+
+func (g *genParamsRule) Compare(x *Explorer, fr *Frame, op token.Token, a, b ssa.Value) AV {
+	isLenF := func(v ssa.Value) bool {
+		c, ok := v.(*ssa.Call)
+		if !ok {
+			return false
+		}
+		bi, ok := c.Call.Value.(*ssa.Builtin)
+		if !ok || bi.Name() != "len" || len(c.Call.Args) != 1 {
+			return false
+		}
+		t := x.TM.OperandAt(fr, c, c.Call.Args[0])
+		for _, alt := range t.Alts() {
+			if paramsFieldOf(alt) != g.field {
+				return false
+			}
+		}
+		return true
+	}
+	isZero := func(v ssa.Value) bool {
+		c, ok := v.(*ssa.Const)
+		return ok && c.Value != nil && c.Value.ExactString() == "0"
+	}
+	flip := map[token.Token]token.Token{token.LSS: token.GTR, token.GTR: token.LSS, token.LEQ: token.GEQ, token.GEQ: token.LEQ, token.EQL: token.EQL, token.NEQ: token.NEQ}
+	switch {
+	case isLenF(a) && isZero(b):
+	case isLenF(b) && isZero(a):
+		op = flip[op]
+	default:
+		return Unknown
+	}
+	// len(F) op 0 with len(F) > 0
+	switch op {
+	case token.EQL, token.LSS, token.LEQ:
+		return False
+	case token.NEQ, token.GTR, token.GEQ:
+		return True
+	}
+	return Unknown
+}
+
+func (g *genParamsRule) OnInstr(x *Explorer, fr *Frame, in ssa.Instruction, st uint64) uint64 {
+	s, ok := in.(*ssa.Store)
+	if !ok {
+		return st
+	}
+	fa, ok := s.Addr.(*ssa.FieldAddr)
+	if !ok || !isNamed(fa.X.Type(), typesPath, "Params") {
+		return st
+	}
+	if p := pkgOf(in.Parent()); p == nil || p.Path() != modulePath {
+		return st
+	}
+	field := structOf(fa.X.Type()).Field(fa.Field).Name()
+	g.seen++
+	vt := x.TM.OperandAt(fr, in, s.Val)
+	for _, alt := range vt.Alts() {
+		empty := alt.Op == "slice" || alt.Op == "zero" || (alt.Op == "const" && alt.Name == "nil")
+		own := paramsFieldOf(alt) == field
+		switch {
+		case own:
+		case empty && field != g.field:
+		case empty:
+			g.bad[fmt.Sprintf("%s: a non-empty Params.%s is replaced by an empty value (the normalisation is guarded by something other than len(%s) == 0): the fee is silently dropped from the exported/imported state", g.w.instrPos(in), field, field)] = true
+		default:
+			g.bad[fmt.Sprintf("%s: Params.%s is overwritten with %s", g.w.instrPos(in), field, alt.String())] = true
+		}
+	}
+	return st
+}
+
 func checkGenParams(w *World, r *Report, tm *Terms, trees ...map[*ssa.Function]bool) {
-	for _, tree := range trees {
-		for _, fn := range sortedFns(tree) {
-			if p := pkgOf(fn); p == nil || p.Path() != modulePath {
-				continue
+	pt := w.lookupNamed(typesPath, "Params")
+	var fields []string
+	if st, ok := pt.Underlying().(*types.Struct); ok {
+		for i := 0; i < st.NumFields(); i++ {
+			if _, isSlice := st.Field(i).Type().Underlying().(*types.Slice); isSlice {
+				fields = append(fields, st.Field(i).Name())
 			}
-			fr := tm.Root(fn)
-			for _, b := range fn.Blocks {
-				for _, in := range b.Instrs {
-					st, ok := in.(*ssa.Store)
-					if !ok {
-						continue
-					}
-					fa, ok := st.Addr.(*ssa.FieldAddr)
-					if !ok || !isNamed(fa.X.Type(), typesPath, "Params") {
-						continue
-					}
-					field := structOf(fa.X.Type()).Field(fa.Field).Name()
-					construct := fmt.Sprintf("%s:Params.%s", fnName(fn), field)
-					// the guard: the innermost dominating If whose condition is len(X) == 0
-					guardField := ""
-					for d := b; d != nil; d = d.Idom() {
-						if d == b {
-							continue
-						}
-						iff, ok := d.Instrs[len(d.Instrs)-1].(*ssa.If)
-						if !ok || !(d.Succs[0] == b || d.Succs[0].Dominates(b)) {
-							continue
-						}
-						ct := tm.Of(fr, iff.Cond)
-						if ct.Op == "binop" && ct.Name == "==" && ct.Args[1].Key() == "const<0>" && ct.Args[0].Op == "builtin" && ct.Args[0].Name == "len" {
-							x := ct.Args[0].Args[0]
-							for x.Op == "deref" || x.Op == "new" {
-								x = x.Args[0]
-							}
-							if x.Op == "field" {
-								guardField = x.Name
-							}
-						}
-						break
-					}
-					vt := tm.OperandAt(fr, in, st.Val)
-					empty := vt.Op == "slice" || vt.Op == "zero" || (vt.Op == "const" && vt.Name == "nil")
-					switch {
-					case !empty:
-						r.Fail("GEN-PARAMS", construct, w.instrPos(in), "genesis code only normalises nil fee slices", "Params."+field+" is overwritten with "+vt.String())
-					case guardField != field:
-						r.Fail("GEN-PARAMS", construct, w.instrPos(in), "Params."+field+" is emptied only when that same field is empty",
-							fmt.Sprintf("the store is guarded by len(%s) == 0, a different field: a non-empty %s is silently dropped from the exported/imported state whenever %s is empty", guardField, field, guardField))
-					default:
-						r.Pass("GEN-PARAMS", construct, w.instrPos(in), "Params."+field+" is emptied only under len("+field+") == 0")
-					}
-				}
-			}
+		}
+	}
+	initG, exportG := w.genesisFns()
+	for _, root := range []*ssa.Function{initG, exportG} {
+		for _, f := range fields {
+			g := &genParamsRule{w: w, field: f, bad: map[string]bool{}}
+			x := NewExplorer(w, tm, g)
+			x.TrackPhi = true
+			x.Run(root, 0)
+			r.Check(len(g.bad) == 0, "GEN-PARAMS", fmt.Sprintf("%s:Params.%s", fnName(root), f), w.pos(root.Pos()),
+				fmt.Sprintf("with a non-empty Params.%s, %s stores into a Params field only that field's own value (or an empty value into another, possibly empty, field) [%d stores on the explored paths]", f, fnName(root), g.seen),
+				strings.Join(sortedKeys(g.bad), "; "))
 		}
 	}
 }
